@@ -2,7 +2,7 @@
 from ..rules import folds
 from .common import declare
 
-RULES = ['FOLD-PURE', 'STATE-PLUMB', 'CTOR-COPY', 'ACC-CONTRACT', 'FOLD-DERIVE']
+RULES = ['BATCH-PURE', 'FOLD-PURE', 'STATE-PLUMB', 'CTOR-COPY', 'ACC-CONTRACT', 'FOLD-DERIVE']
 FLOORS = {'FOLD-PURE': 50, 'STATE-PLUMB': 12, 'CTOR-COPY': 7, 'ACC-CONTRACT': 2, 'FOLD-DERIVE': 14}
 
 META = {
@@ -25,6 +25,7 @@ def run(ctx, R):
     R.not_decided = ['numeric results; only that resumed and uninterrupted runs perform the same calls']
     declare(R, folds.RULES, RULES, FLOORS)
     folds.check_fold_pure(ctx, R)
+    folds.check_batch_pure(ctx, R)
     folds.check_state_plumb(ctx, R)
     folds.check_ctor_copy(ctx, R)
     folds.check_acc_contract(ctx, R)
